@@ -9,7 +9,7 @@ RULE = ('every ruleset of the finite families in coverage.bounds is run to exhau
         'emitted+queued <= multiplicity for every vector, at exhaustion emitted == full Cartesian grid per structure line; '
         'non-trivial = ruleset with an exact tie between co-parents of some node, or a repeated variable type')
 ASSUMPTIONS = [
-    'in-memory grammar objects built with object.__new__(PcfgGrammar) behave like loaded ones for PcfgQueue (only .grammar/.base are read)',
+    'in-memory grammars are deep copies of a PcfgGrammar really constructed from a minimal on-disk ruleset, with .grammar/.base replaced: they behave like loaded ones for PcfgQueue (the on-disk layer goes through the real loader)',
     'heap inspection reads PcfgQueue.p_queue when present; otherwise only the emitted multiset is checked',
 ]
 shards = Q.shards
